@@ -297,3 +297,25 @@ Lemma stale_rename_inbox_refuted :
   spec_b (fst (rename_inbox_sched_stale s (S_ "R1") 200 c085_env)) = false.
 Proof. vm_compute. repeat split. Qed.
 
+
+(** regression (before raven 8552cfb): RENAME INBOX x overwrote the target's counter
+    with INBOX's; with an APPEND to the just created target in the window (INBOX
+    empty) the target advertised UIDNEXT 1 while holding UID 1.  With MAX the same
+    schedule is fine. *)
+Definition c03w_env : list op := [OAppend (S_ "R1") []].
+Lemma overwrite_rename_inbox_refuted :
+  clean (init 100) [] = true /\
+  spec_b (fst (rename_inbox_sched (init 100) (S_ "R1") 200 c03w_env)) = true /\
+  spec_b (fst (rename_inbox_sched_overwrite (init 100) (S_ "R1") 200 c03w_env)) = false.
+Proof. vm_compute. repeat split. Qed.
+
+(** what the window still allows on the current tree: a message added to the target
+    AND expunged again inside the window leaves no row for UNIQUE to trip over,
+    and INBOX's message then takes the same UID under the target's (name, validity) *)
+Definition c03w2_env : list op :=
+  [OAppend (S_ "R1") []; OUidStore 6 [UOne 1] SAdd [DELETED]; OExpunge 6].
+Lemma window_expunged_uid_reused :
+  let s := run [OAppend INBOX []] (init 100) in
+  spec_b (fst (rename_inbox_sched s (S_ "R1") 200 [])) = true /\
+  spec_b (fst (rename_inbox_sched s (S_ "R1") 200 c03w2_env)) = false.
+Proof. vm_compute. repeat split. Qed.
